@@ -12,7 +12,7 @@ ASSUME = ["window output buffer never overflows", "single producer",
 
 def run(tier):
     if tier == "quick":
-        plan = [("tumbling", dict(size=2, moo=0, al=1, maxts=5, maxev=4, cap=4000)),
+        plan = [("tumbling", dict(size=2, moo=0, al=1, maxts=5, maxev=4, cap=4000, closer=True)),
                 ("tumbling", dict(size=2, moo=1, al=2, maxts=5, maxev=4, cap=4000, mc=dict(maxts=6))),
                 ("sliding", dict(size=4, slide=2, moo=1, al=1, maxts=5, maxev=4, cap=3000)),
                 # a late row in TWO open windows while the trigger goroutine fires a third one between its re-deliveries (Sliding.LateSend)
@@ -25,7 +25,7 @@ def run(tier):
                 # an allowance SHORTER than the window: a fired window runs out of its allowance while the current one already holds rows
                 ("tumbling", dict(size=8, moo=1, al=2), 40, 50), ("tumbling", dict(size=10, moo=1, al=1), 30, 50)]
     else:
-        plan = [("tumbling", dict(size=2, moo=0, al=1, maxts=6, maxev=5, cap=40000)),
+        plan = [("tumbling", dict(size=2, moo=0, al=1, maxts=6, maxev=5, cap=40000, closer=True)),
                 ("tumbling", dict(size=2, moo=1, al=2, maxts=6, maxev=5, cap=40000)),
                 ("tumbling", dict(size=2, moo=1, al=3, maxts=5, maxev=4)),
                 ("sliding", dict(size=4, slide=2, moo=1, al=1, maxts=6, maxev=4)),
